@@ -39,6 +39,8 @@ def setup(rep, tier):
     rep.minimum('R06.3', 5)
     rep.minimum('R06.4', 3)
     rep.minimum('R06.5', 5)
+    rep.minimum('R06.6', 1)
+    rep.minimum('R06.7', 1)
 
 
 _spf_cache = {}
@@ -405,7 +407,49 @@ def r06_5(rep, prog, f, an, pd, pl):
         rep.unresolved('R06.5', 'only %d array arguments of parser calls resolved' % ncall)
 
 
+def r06_67(rep, prog):
+    """R06.6 self-delimited VBR: the explicitly coded last frame, together with the bytes of its own length
+    field, must fit in what is left for it (`bytes + size[count-1] > last_size` -> invalid), so the
+    reported last frame ends inside the input; R06.7 opus_packet_has_lbrr derives the number of SILK
+    frames per Opus frame from the per-frame duration (as the decoder does), not from the packet's."""
+    f = prog.fn('opus_packet_parse_impl')
+    cf = cfgm.CFG(f)
+    names = {l['id']: l['name'] for l in f.locals.values()}
+    hits = []
+    for b in cf.blocks:
+        c = cf.cond(b)
+        if c is None:
+            continue
+        ls = {names.get(x[2]) for x in sx.walk(c) if sx.kind(x) == 'local'}
+        if 'last_size' in ls and any(sx.kind(x) == 'idx' for x in sx.walk(c)) and any(sx.kind(x) == 'param' and x[2] == 'size' for x in sx.walk(c)):
+            hits.append((b, c))
+    inst = '%s:self-delimited VBR: length field + last frame must fit in the remaining bytes' % prog.config
+    if len(hits) != 1:
+        rep.unresolved('R06.6', 'expected one comparison of size[count-1] with last_size in the self-delimited branch, found %d' % len(hits), f.where())
+    else:
+        b, c = hits[0]
+        ls = {names.get(x[2]) for x in sx.walk(c) if sx.kind(x) == 'local'}
+        act = None
+        for s_, pol in cf.edges(b):
+            if pol is True:
+                act = T._block_action(cf, s_, 0)
+        at = guards.atoms(c, True)
+        ok = 'bytes' in ls and act == ('return', -4) and len(at) == 1 and at[0][0] == '<'
+        where = '%s:%s' % (f.file, cf.blocks[b]['term'].get('l'))
+        (rep.holds if ok else rep.violated)('R06.6', inst, where, 'test `%s` -> %s' % (sx.show(c), act) if ok else
+                                            'test `%s` ignores the bytes taken by the length field itself (or does not reject): a packet truncated by 1-2 bytes is accepted and its last frame reported past the input' % sx.show(c),
+                                            **({} if ok else {'key': 'selfdelim-last-frame'}))
+    if prog.has_fn('opus_packet_has_lbrr'):
+        g = prog.fn('opus_packet_has_lbrr')
+        calls = [c for c in g.calls() if sx.callee_name(c) in ('opus_packet_get_samples_per_frame', 'opus_packet_get_nb_samples', 'opus_packet_get_nb_frames')]
+        used = sorted({sx.callee_name(c) for c in calls})
+        ok = used == ['opus_packet_get_samples_per_frame'] and all(sx.int_val(c[2][1]) == 48000 for c in calls)
+        (rep.holds if ok else rep.violated)('R06.7', '%s:opus_packet_has_lbrr counts SILK frames per Opus frame from the per-frame duration' % prog.config, g.where(),
+                                            'uses %s' % used, **({} if ok else {'key': 'has-lbrr-duration'}))
+
+
 def check(rep, prog, tier):
+    r06_67(rep, prog)
     f, an, pd, pl = r06_1(rep, prog)
     r06_2(rep, prog, f, an, pd, pl)
     r06_3(rep, prog, f, an, pd, pl)
